@@ -443,7 +443,7 @@ theorem pullLoop_P_all : ∀ (fuel : Nat) (kc : Consumer) (lim : Option Int) (co
         | panic b => simpa [castRes] using e5
         | oof => simpa [castRes] using e5
 
-theorem openC_P_all (c : Obj) (w : World) (hs : StaleOK c) (hd : Distinct c) (n : Nat) :
+theorem openC_P_all (c : Obj) (w : World) (hd : Distinct c) (n : Nat) :
     match (openC c w).1 with
     | .val _ => NoR0 (openC c w).2.1 ∧ LiveCur (openC c w).2.1 ∧ CurOpen (openC c w).2.1 ∧ Same c (openC c w).2.1 ∧
         P c.r0 (openC c w).2.2 + demandFrom (openC c w).2.1 n ≤ P c.r0 w + needPulls c.ops c.g n c.xs
@@ -456,10 +456,10 @@ theorem openC_P_all (c : Obj) (w : World) (hs : StaleOK c) (hd : Distinct c) (n 
   cases res with
   | val u =>
       simp only []
-      have hp := pullOuter_P_all { c with rest := c.xs, outerOpen := true } w1
+      have hp := pullOuter_P_all { c with cur := none, rest := c.xs, outerOpen := true } w1
       have hsk := skipCost_le_needPulls c.ops c.g n c.xs
-      have hsh := pullOuter_shape { c with rest := c.xs, outerOpen := true } w1
-      generalize pullOuter { c with rest := c.xs, outerOpen := true } w1 = z at *
+      have hsh := pullOuter_shape { c with cur := none, rest := c.xs, outerOpen := true } w1
+      generalize pullOuter { c with cur := none, rest := c.xs, outerOpen := true } w1 = z at *
       obtain ⟨res3, c3, w3⟩ := z
       obtain ⟨rest3, hc3⟩ := hsh
       simp only at hc3 hp
@@ -472,9 +472,9 @@ theorem openC_P_all (c : Obj) (w : World) (hs : StaleOK c) (hd : Distinct c) (n 
           subst hr
           have hns := needPulls_some (g := c.g) n hnx
           have hlen := (nextOuter_some hnx).2
-          have hpn := openNext_P c.r0 { c with rest := rest3, outerOpen := true } (c.g v) w3
-          have hrm := openNext_rem { c with rest := rest3, outerOpen := true } (c.g v) w3
-          generalize openNext { c with rest := rest3, outerOpen := true } (c.g v) w3 = u4 at *
+          have hpn := openNext_P c.r0 { c with cur := none, rest := rest3, outerOpen := true } (c.g v) w3
+          have hrm := openNext_rem { c with cur := none, rest := rest3, outerOpen := true } (c.g v) w3
+          generalize openNext { c with cur := none, rest := rest3, outerOpen := true } (c.g v) w3 = u4 at *
           obtain ⟨res4, c4, w4⟩ := u4
           simp only at hpn hrm
           cases res4 with
@@ -492,16 +492,11 @@ theorem openC_P_all (c : Obj) (w : World) (hs : StaleOK c) (hd : Distinct c) (n 
           | oof => simp only [closeFunc_P]; omega
       | eof =>
           simp only at hp ⊢
-          have hden := nextOuter_none hp.1
-          have hcur : c.cur = none := by
-            cases hcc : c.cur with
-            | none => rfl
-            | some s => exact absurd hden (hs (by simp [hcc]))
           refine ⟨?_, ?_, ?_, ⟨rfl, rfl, rfl, rfl⟩, ?_⟩
-          · intro s hs'; simp [hcur] at hs'
-          · intro s hs'; simp [hcur] at hs'
-          · intro s hs'; simp [hcur] at hs'
-          · simp only [demandFrom, hcur]; rw [needPulls_none n hp.1]; omega
+          · intro s hs'; simp at hs'
+          · intro s hs'; simp at hs'
+          · intro s hs'; simp at hs'
+          · simp only [demandFrom]; rw [needPulls_none n hp.1]; omega
       | fail e => simp only [castRes, closeFunc_P]; omega
       | panic b => simp only [castRes, closeFunc_P]; omega
       | oof => simp only [castRes, closeFunc_P]; omega
@@ -519,7 +514,7 @@ def boundAll (lim : Option Int) (c : Obj) : Nat :=
 /-- **bound in every world**: whatever the fault plan, the outer source is pulled at most `needPulls … n xs` times under
     `Limit(n)`, `n ≥ 1`; not at all under `Limit(n ≤ 0)`; at most `xs.length + 1` times without a Limit -/
 theorem consume_P_all (fuel : Nat) (kc : Consumer) (lim : Option Int) (c : Obj) (w : World)
-    (hs : StaleOK c) (hd : Distinct c) :
+    (hd : Distinct c) :
     P c.r0 (Model.PipeDyn.consume fuel kc lim c w).2.2 ≤ P c.r0 w + boundAll lim c := by
   simp only [Model.PipeDyn.consume]
   by_cases hoff : limOff lim
@@ -534,7 +529,7 @@ theorem consume_P_all (fuel : Nat) (kc : Consumer) (lim : Option Int) (c : Obj) 
         simp only [limOff, decide_eq_true_eq] at hoff
         refine ⟨m.toNat, by simp [WantOK], ?_⟩
         simp only [boundAll]; rw [if_neg hoff]; exact Nat.le_refl _
-    have ho := openC_P_all c w hs hd n
+    have ho := openC_P_all c w hd n
     generalize openC c w = x at *
     obtain ⟨res, c1, w1⟩ := x
     cases res with
